@@ -1396,6 +1396,21 @@ def gen_C20(o, rng, tier):
                         o.op("s1 eq s0")
                         o.op("s1 iter nnnnn")
                         o.end()
+                        # `deserialize_in_place` into a destination that already holds other entries
+                        if dcap > 0:
+                            o.case(m0=nn, m1=dcap, s0=nn, s1=dcap, tag="t%d" % (4 + h))
+                            build_map(o, "m0", lay, via_removal=variant)
+                            for c in ([nn + 1, 0][:dcap]):
+                                o.op(f"m1 insert {o.k(c)} {o.v()}")
+                                o.op(f"s1 insert {o.k(c)}")
+                            o.op(f"m0 serde m1 tok{4 + h}", test=True)
+                            o.op("m0 eq m1")
+                            o.op("m1 len")
+                            build_set(o, "s0", lay)
+                            o.op(f"s0 serde s1 tok{4 + h}", test=True)
+                            o.op("s0 eq s1")
+                            o.op("s1 len")
+                            o.end()
     for _ in range(40 if tier == "quick" else 400):
         nn = rng.choice([2, 3, 4, 6])
         dn = rng.choice(menu)
